@@ -554,6 +554,15 @@ def rule_miss_after_factories(ctx, an: Anchors, rule: str = "C04.R1") -> None:
         if not fac_nodes or not misses:
             rep.unrecognised(rule, f, f.node, "lookup without a factory-table read / without a miss exit")
             continue
+        # which way a miss goes: ResourceNotFound only for a mandatory lookup, and there is one
+        if "optional" in f.params:
+            from ..dataflow import ReachingDefs
+            from ..facts import Facts
+
+            facts = Facts(a, f, ReachingDefs(a, f))
+            raises = [m for m in misses if isinstance(m.ast, ast.Raise)]
+            wrong = [m for m in raises if not facts.implied(m.id, ast.Name(id="optional", ctx=ast.Load()), False)]
+            rep.check(rule, bool(raises) and not wrong, f, (wrong[0] if wrong else raises[0] if raises else misses[0]).ast, f"{name} raises ResourceNotFound exactly on the mandatory (optional falsy) miss path ({len(raises)} site(s))", f"{name} " + ("can raise ResourceNotFound for an optional lookup" if wrong else "never raises ResourceNotFound: a mandatory lookup that misses yields None"))
         bad = [m for m in misses if not cfg.all_paths_pass(cfg.entry, [m.id], fac_nodes, edge_ok=lambda s_, d_, lab: lab not in ("e", "h") or s_.id in fac_nodes)]
         rep.check(rule, not bad, f, bad[0].ast if bad else misses[0].ast, f"every miss exit of {name} ({len(misses)}) comes after the factory table was consulted", f"{name} can report a miss (`{ast.unparse(bad[0].ast) if bad else ''}`) without having looked for a factory: an optional lookup never triggers the factory, so the lookup paths disagree on what is visible")
 
